@@ -208,6 +208,23 @@ impl Lookup<ProperIdentifier> for BTreeMap<ProperIdentifier, SymTableEntry> {
     }
 }
 
+#[cfg(rrss_verif)]
+impl SymTable {
+    /// verification hook: every entry of the three tables under its stored (case-folded) key
+    pub fn verif_entries(&self) -> Vec<(VariableName, crate::verif::EntrySnapshot)> {
+        let snap = |e: &SymTableEntry| match e {
+            SymTableEntry::Var(v) => crate::verif::EntrySnapshot::Var(v.clone()),
+            SymTableEntry::Func(f) => crate::verif::EntrySnapshot::Func {
+                arity: f.params.len(),
+            },
+        };
+        let simple = self.simple.iter().map(|(k, e)| (k.clone().into(), snap(e)));
+        let common = self.common.iter().map(|(k, e)| (k.clone().into(), snap(e)));
+        let proper = self.proper.iter().map(|(k, e)| (k.clone().into(), snap(e)));
+        simple.chain(common).chain(proper).collect()
+    }
+}
+
 impl SymTable {
     pub fn new() -> Self {
         Default::default()
